@@ -325,7 +325,7 @@ P("C14", ["LC.Props.C14"],
   "Everything outside these skeletons (matcher queue, Go memory model, extractor faithfulness) is monitored by the race detector.",
   ["Go memory model outside the model; race detector sees executed schedules"], trusted=V1_TB, regen=["v1protocol"])
 
-P("C15", ["LC.Props.C15"],
+P("C15", ["LC.Props.C15", "LC.Props.C15Parse"],
   [rootrun("serializer", "serializer", "overlay/serializer/zz_verif_test.go", "TestVerifC15")],
   "subsets/orderings of the 178 license files (always including names whose last letters are among those of '.txt'; plus "
   "non-.txt entries) "
